@@ -121,7 +121,7 @@ func RunSMT(o *drv.Out, v *Verifier, lim *limiter) {
 	r := o.Rng
 	thorough := o.Tier == "thorough"
 	type cfg struct{ n, cases, keys, probes int }
-	cfgs := []cfg{{3, 6, 4, 5}, {4, 8, 8, 6}, {5, 8, 14, 6}, {8, 8, 40, 6}, {12, 5, 60, 6}, {16, 5, 80, 6}, {160, 8, 60, 8}}
+	cfgs := []cfg{{3, 8, 4, 6}, {4, 14, 8, 8}, {5, 14, 14, 8}, {8, 14, 40, 8}, {12, 10, 60, 8}, {16, 10, 80, 8}, {160, 16, 60, 10}}
 	if thorough {
 		for i := range cfgs {
 			cfgs[i].cases *= 5
@@ -278,7 +278,7 @@ func RunSMT(o *drv.Out, v *Verifier, lim *limiter) {
 					}
 				}
 				// mutated proofs, with the original statement and with a false one
-				for j := 0; j < 3; j++ {
+				for j := 0; j < 5; j++ {
 					kind, mp := mutate(o, proof)
 					mps := ShowProof(mp)
 					if aPresent {
@@ -302,9 +302,9 @@ func RunSMT(o *drv.Out, v *Verifier, lim *limiter) {
 func RunStore(o *drv.Out, lim *limiter) {
 	r := o.Rng
 	u := c08.NewUniverse(160, o.Tier == "thorough")
-	cases := 4
+	cases := 8
 	if o.Tier == "thorough" {
-		cases = 16
+		cases = 40
 	}
 	for ci := 0; ci < cases; ci++ {
 		sti, err := store.NewStoreInMemory(lib.NewNullLogger())
